@@ -775,6 +775,15 @@ func runWeightedBigFamilies(run *core.Run, o wgOpts) {
 		run.Count("family_models", 1)
 		run.Max("computed_ladder_levels", int64(L))
 	}
+	for _, L := range levels {
+		// the same ladder hanging below a relation that refers to itself through tuples and is public
+		m := computedLadder(L)
+		td := m.TypeDefinitions[1]
+		td.Relations["root"] = gen.Union(gen.This(), gen.Computed("a000"), gen.Computed("b000"))
+		td.Metadata.Relations["root"] = &openfgav1.RelationMetadata{DirectlyRelatedUserTypes: []*openfgav1.RelationReference{gen.RefWild("user"), gen.RefRel("o", "root"), gen.RefType("user")}}
+		checkWeightedModel(run, m, run.Rng("fam-ladder-cycle", L), o)
+		run.Count("family_models", 1)
+	}
 	for _, N := range chains {
 		checkWeightedModel(run, computedChain(N), run.Rng("fam-chain", N), o)
 		run.Count("family_models", 1)
